@@ -7,6 +7,7 @@ mod c06;
 mod c11;
 mod worker;
 mod c12;
+mod c13;
 mod c15;
 mod c19;
 mod zeep;
@@ -42,6 +43,7 @@ fn run(id: &str, tier: Tier) -> i32 {
         "C06" => c06::run(tier),
         "C11" => c11::run(tier),
         "C12" => c12::run(tier),
+        "C13" => c13::run(tier),
         "C15" => c15::run(tier),
         "C19" => c19::run(tier),
         _ => {
@@ -58,6 +60,7 @@ fn replay(file: &str) -> i32 {
         "C06" => c06::replay(&v["case"]),
         "C11" => c11::replay(&v["case"]),
         "C12" => c12::replay(&v["case"]),
+        "C13" => c13::replay(&v["case"]),
         "C15" => c15::replay(&v["case"]),
         "C19" => c19::replay(&v["case"]),
         p => {
